@@ -12,8 +12,9 @@ MANIFEST = {
  'technique': 'Lean 4 proof (induction on input / fuel, state invariant, measure) + table extraction + differential correspondence',
  'design_ref': 'DESIGN.md §6 C13',
 }
-THEOREMS = ['C13.tokenize_total', 'C13.quote_roundtrip', 'C13.nesting_exact', 'C13.nesting_disabled_flat',
-            'C13.dqrepr_roundtrip_partial', 'C13.dqrepr_roundtrip_counterexample', 'C13.tables_ok']
+THEOREMS = ['C13.tables_ok', 'C13.tokenize_total', 'C13.quote_roundtrip', 'C13.nesting_exact', 'C13.nesting_disabled_flat',
+            'C13.dqrepr_reread', 'C13.dqrepr_roundtrip_partial', 'C13.dqrepr_roundtrip_counterexample',
+            'C13.dqrepr_class_exact']
 TRUSTED = ['Lean 4.33.0 kernel; axioms ⊆ {propext, Classical.choice, Quot.sound}',
            'Lean core String.utf8EncodeChar / ByteArray.utf8Decode? as the meaning of Python utf-8 encode / strict decode (exercised differentially incl. overlong, surrogate and truncated sequences)',
            'harness/extractors/tokenizer.py (shlex whitespace, Tokenizer separators, commenters == "", ValidBrackets, ValidQuotes → Gen/Tokenizer.lean)',
@@ -404,7 +405,7 @@ def finding_status(impl):
         st[f['id']] = (r != xs, 'tokenize(dqrepr(%r)) = %r' % (xs, r if r is not None else out))
     return st
 
-COUNTS_QUICK = dict(raw=30000, quote=12000, dqrepr=8000, nest=5000, deep=30, T=6000, lex=10000, handle=10000, uesc=8000, writers=3000)
+COUNTS_QUICK = dict(raw=80000, quote=30000, dqrepr=20000, nest=12000, deep=40, T=15000, lex=25000, handle=25000, uesc=20000, writers=6000)
 
 def run(ctx):
     build = leanbuild.ensure(PROPERTY, THEOREMS, thorough=ctx.thorough, extractors=['Tokenizer'])
